@@ -7,6 +7,7 @@ from typing import Dict, List, Optional, Set
 from ..cfg import CFG, Node
 from ..core import AnalysisError, Cls, Fn, Repo, call_name, calls_in, const_value, dotted, get_kw, last_attr, short, walk_no_nested
 from ..registry import extract_all
+from ..pat import has
 from ..report import Check
 from ..terms import Atom, Poly, TermBuilder, expand_phi, mentions, single_atom
 
@@ -293,14 +294,14 @@ def _reinit_opt(ck: Check, repo: Repo) -> None:
           "the new optimizer replaces the attribute named in the registry entry")
     # all optimizers when none is given
     src = ast.unparse(fn.node)
-    ck.ob("C06.5", fn, fn.node, "for opt_config in optimizer_configs:\n            _reinit_individual(opt_config)" in src or "for opt_config in individual.registry.optimizers" in src,
+    ck.ob("C06.5", fn, fn.node, has(src, 'for $opt_config in $optimizer_configs:\n    $_reinit_individual($opt_config)') or has(src, 'for $opt_config in $individual.registry.optimizers:\n    ...'),
           "without a selection every registered optimizer is re-created", construct="reinit_opt: loop over all optimizers")
     ri = repo.fn(BASE, "EvolvableAlgorithm._registry_init")
     src = ast.unparse(ri.node)
-    ck.ob("C06.5", ri, ri.node, "for hp in self.registry.hp_config" in src and "if not hasattr(self, hp)" in src and "raise AttributeError" in src,
+    ck.ob("C06.5", ri, ri.node, has(src, 'for $hp in self.registry.hp_config:\n    ...') and has(src, 'if not hasattr(self, $hp):\n    ...') and has(src, 'raise AttributeError'),
           "configured hyper-parameter names are checked against the agent's attributes at construction", construct="_registry_init hp check")
     gl = repo.fn(BASE, "EvolvableAlgorithm.get_lr_names")
-    ck.ob("C06.5", gl, gl.node, "[opt.lr for opt in self.registry.optimizers]" in ast.unparse(gl.node), "lr names are those of all registered optimizers",
+    ck.ob("C06.5", gl, gl.node, has(gl.node, '[$opt.lr for $opt in self.registry.optimizers]'), "lr names are those of all registered optimizers",
           construct="get_lr_names")
 
 
